@@ -63,29 +63,130 @@ let run_file file tablefile =
                 | Nucleo.TBeforeSpawn _ -> "Ybefore_spawn")
           end
         | ["run"] ->
-          (match !s.Nucleo.lock with
-           | Nucleo.HeldRun _ ->
-             let sid = !s.Nucleo.wk.Nucleo.w_sid in
-             let cnt = i (Nucleo.count_of !s sid) in
-             let seen = List.filter (fun k -> Nucleo.published !s sid (n k)) (List.init cnt (fun k -> k)) in
-             ev (Nucleo.ERun (List.map n seen, n cnt));
-             push (match !s.Nucleo.lock with
-                 | Nucleo.HeldRun (Nucleo.RStart, _, _) -> "Ystart"
-                 | Nucleo.HeldRun (Nucleo.RSort _, _, _) -> "Ybefore_sort"
-                 | Nucleo.HeldRun (Nucleo.RNotifyRead, _, _) -> "Ybefore_notify_read"
-                 | Nucleo.HeldRun (Nucleo.RNotify, _, _) -> "Ybefore_notify"
-                 | Nucleo.HeldRun (Nucleo.REnd, _, _) -> "Yend"
-                 | _ -> "Yunlocked")
-           | _ -> push "NORUN")
+          let steppable = (match !s.Nucleo.post with Nucleo.PNone -> (match !s.Nucleo.lock with Nucleo.HeldRun _ -> true | _ -> false) | _ -> true) in
+          if not steppable then push "NORUN" else begin
+            let was_done = (match !s.Nucleo.post with Nucleo.PDone -> true | _ -> false) in
+            let sid = !s.Nucleo.wk.Nucleo.w_sid in
+            let cnt = i (Nucleo.count_of !s sid) in
+            let seen = List.filter (fun k -> Nucleo.published !s sid (n k)) (List.init cnt (fun k -> k)) in
+            ev (Nucleo.ERun (List.map n seen, n cnt));
+            push (if was_done then "Yidle" else
+                    match !s.Nucleo.post with
+                    | Nucleo.PUnlocked _ -> "Yunlocked"
+                    | Nucleo.PNotify -> "Ybefore_notify"
+                    | Nucleo.PDone -> "Ydone"
+                    | Nucleo.PNone ->
+                      (match !s.Nucleo.lock with
+                       | Nucleo.HeldRun (Nucleo.RStart, _, _) -> "Ystart"
+                       | Nucleo.HeldRun (Nucleo.RSort _, _, _) -> "Ybefore_sort"
+                       | Nucleo.HeldRun (Nucleo.REnd _, _, _) -> "Yend"
+                       | _ -> "Yidle"))
+          end
         | ["obs"] ->
           if not (idle ()) then push "BUSY" else begin
             let sn = !s.Nucleo.snap in
             let ms = List.map (fun m -> Printf.sprintf "%d:%d" (i m.Nucleo.m_score) (i m.Nucleo.m_idx)) sn.Nucleo.sn_matches in
             let ds = List.map (fun m -> match Hashtbl.find_opt items (i sn.Nucleo.sn_sid, i m.Nucleo.m_idx) with Some g -> string_of_int g | None -> "UNINIT") sn.Nucleo.sn_matches in
-            push (Printf.sprintf "O c=%d m=%s d=%s inj=%d n=%d" (i sn.Nucleo.sn_count)
+            push (Printf.sprintf "O p=%d c=%d m=%s d=%s inj=%d n=%d" (i sn.Nucleo.sn_pat) (i sn.Nucleo.sn_count)
                     (if ms = [] then "-" else String.concat "," ms) (if ds = [] then "-" else String.concat "," ds)
                     (i (Nucleo.active_injectors !s)) (i !s.Nucleo.notifies + !inj_notifies))
           end
         | _ -> push "?") (String.split_on_char ';' line);
       print_endline (String.concat ";" (List.rev !obs))
     end)
+
+(* ---- model-guided history generation: `driver nucleo-gen SEED COUNT` ------------------------------ *)
+(* random walks over the ENABLED events of the model (so that the real threads never block where the
+   scheduler cannot see them); the pattern pool / text pool are those of harness/hn/src/nucleo_cmd.rs *)
+let npatterns = 7
+(* pool text extensions for truthful append flags: "a"->"ab"->"abc", "ab"->"ab c" *)
+let extends_ old nw = (old = 0) || (old = 1 && (nw = 2 || nw = 3 || nw = 6)) || (old = 2 && (nw = 3 || nw = 6))
+let gen seed count =
+  Random.init seed;
+  let sc _ _ _ = None and ln _ _ = N0 in
+  for hk = 0 to count - 1 do
+    let style = hk mod 5 in
+    let s = ref Nucleo.init_nstate in
+    let ev e = s := Nucleo.do_event sc ln !s e in
+    let out = ref [] in
+    let emit x = out := x :: !out in
+    let threads = ref [] in         (* (tid, sid, stage ref, idx ref) *)
+    let next_t = ref 1 and next_h = ref 1 and next_g = ref (Random.int 12) in
+    let idle () = (match !s.Nucleo.tpc with Nucleo.TIdle -> true | _ -> false) in
+    let held_run () = (match !s.Nucleo.post with Nucleo.PNone -> (match !s.Nucleo.lock with Nucleo.HeldRun _ -> true | _ -> false) | _ -> true) in
+    let do_ut () = if (not (idle ())) && Nucleo.enabled_tick !s then (ev Nucleo.ETick; emit "ut"; true) else false in
+    let do_run () =
+      if held_run () then begin
+        let sid = !s.Nucleo.wk.Nucleo.w_sid in
+        let cnt = i (Nucleo.count_of !s sid) in
+        let seen = List.filter (fun k -> Nucleo.published !s sid (n k)) (List.init cnt (fun k -> k)) in
+        ev (Nucleo.ERun (List.map n seen, n cnt)); emit "run"; true end else false in
+    let do_st () =
+      (* style 1: keep writers parked between reservation and publication most of the time *)
+      let cands = List.filter (fun (_, _, st, _) -> !st < 2) !threads in
+      let cands = if style = 1 && Random.int 5 > 0 then List.filter (fun (_, _, st, _) -> !st = 0) cands else cands in
+      match cands with
+      | [] -> false
+      | l -> let (t, sid, st, idx) = List.nth l (Random.int (List.length l)) in
+        if !st = 0 then begin idx := i (Nucleo.count_of !s (n sid)); ev (Nucleo.EReserve (n sid)); st := 1 end
+        else begin ev (Nucleo.EPublish (n sid, n !idx)); st := 2 end;
+        emit (Printf.sprintf "st %d" t); true in
+    let do_push () =
+      match !s.Nucleo.injectors with
+      | [] -> false
+      | l -> if List.length (List.filter (fun (_, _, st, _) -> !st < 2) !threads) >= (if style = 1 then 7 else 4) then false else begin
+          let (h, sid) = List.nth l (Random.int (List.length l)) in
+          threads := (!next_t, i sid, ref 0, ref 0) :: !threads;
+          emit (Printf.sprintf "push %d %d %d" !next_t (i h) !next_g);
+          incr next_t; next_g := !next_g + 1 + Random.int 3; true end in
+    let do_inj () = if idle () then begin ev (Nucleo.ENewInjector (n !next_h)); emit (Printf.sprintf "inj %d" !next_h); incr next_h; true end else false in
+    let do_obs () = if idle () then (emit "obs"; true) else false in
+    let cur_pat = ref 0 in
+    let do_edit () =
+      if idle () then begin
+        let p = Random.int npatterns in
+        let app = extends_ !cur_pat p && Random.int 4 > 0 in
+        ev (Nucleo.EEdit (n p, app, false)); emit (Printf.sprintf "edit %d %d" p (Bool.to_int app)); cur_pat := p; true end else false in
+    let do_restart () = if idle () then begin let c = Random.bool () in ev (Nucleo.ERestart c); emit (Printf.sprintf "restart %d" (Bool.to_int c)); true end else false in
+    let do_tick () = if idle () then begin let z = (style = 3 && Random.int 4 > 0) || Random.int 3 = 0 in ev (Nucleo.ETickBegin z); emit (Printf.sprintf "tick %d" (if z then 0 else 1)); true end else false in
+    ignore (do_inj ());
+    if style <> 4 then (ignore (do_push ()); ignore (do_push ()));
+    let steps = 25 + Random.int 50 in
+    for _ = 1 to steps do
+      let r = Random.int 100 in
+      let ok =
+        if r < 22 then do_st ()
+        else if r < 34 then do_push ()
+        else if r < 52 then do_ut ()
+        else if r < 70 then do_run ()
+        else if r < 78 then do_tick ()
+        else if r < 84 then do_edit ()
+        else if r < 88 then (if style = 2 || Random.int 4 = 0 then do_restart () else false)
+        else if r < 91 then do_inj ()
+        else if r < 93 then (match !s.Nucleo.injectors with (h, _) :: _ when Random.bool () -> ev (Nucleo.ECloneInjector (h, n !next_h)); emit (Printf.sprintf "clone %d %d" (i h) !next_h); incr next_h; true | _ -> false)
+        else if r < 95 then (match !s.Nucleo.injectors with [] -> false | l -> let (h, _) = List.nth l (Random.int (List.length l)) in
+                              if List.exists (fun (_, _, st, _) -> !st < 2) !threads then false else begin ev (Nucleo.EDropInjector h); emit (Printf.sprintf "dropinj %d" (i h)); true end)
+        else do_obs () in
+      ignore ok
+    done;
+    (* wind down to quiescence: finish the tick, the run, the writers; then tick until not running *)
+    let fuel = ref 400 in
+    let progress () = decr fuel; !fuel > 0 in
+    while progress () && (not (idle ()) || held_run () || List.exists (fun (_, _, st, _) -> !st < 2) !threads) do
+      if not (do_ut ()) then if not (do_run ()) then ignore (do_st ())
+    done;
+    ignore (do_obs ());
+    let rounds = ref 0 in
+    let quiet = ref false in
+    while not !quiet && !rounds < 6 do
+      incr rounds;
+      ev (Nucleo.ETickBegin false); emit "tick 1";
+      let f2 = ref 200 in
+      while !f2 > 0 && not (idle ()) do decr f2; if not (do_ut ()) then ignore (do_run ()) done;
+      let f3 = ref 50 in
+      while !f3 > 0 && held_run () do decr f3; ignore (do_run ()) done;
+      ignore (do_obs ());
+      (match !s.Nucleo.last_tick with Some (_, false) -> quiet := true | _ -> ())
+    done;
+    print_endline (String.concat ";" (List.rev !out))
+  done
